@@ -17,8 +17,18 @@ sed -i "s#/verif/target#/tmp/mut-target#" $M/.cargo/config.toml
 rc=0
 for ID in "$@"; do
   id=$(echo $ID | tr 'A-Z' 'a-z')
+  if [ "$id" = "c20" ]; then
+    # C20 lives in its own package (pyo3); same treatment, own scratch copy and target
+    MP=/tmp/mutmc-py; mkdir -p $MP
+    rsync -a --delete --exclude target /verif/mc-py/ $MP/
+    sed -i "s#/repo/crates#$W/crates#g; s#/verif/mc\"#$M\"#" $MP/Cargo.toml
+    sed -i "s#/verif/target-py#/tmp/mut-target-py#" $MP/.cargo/config.toml
+    ( cd $MP && CARGO_NET_OFFLINE=true cargo build --release --offline --bin c20 2>&1 | grep -E "^error" -A8 | head -30 )
+    MC_OUT_DIR=$OUT /tmp/mut-target-py/release/c20 --tier ${TIER:-quick} > $OUT/$ID.log 2>&1
+  else
   ( cd $M && CARGO_NET_OFFLINE=true cargo build --release --offline --bin $id 2>&1 | grep -E "^error" -A8 | head -30 )
   MC_OUT_DIR=$OUT /tmp/mut-target/release/$id --tier ${TIER:-quick} > $OUT/$ID.log 2>&1
+  fi
   code=$?
   echo -e "$(basename $(dirname $PATCH))/$(basename $PATCH)\t$ID\t$code\t$(grep 'signature:' $OUT/$ID.log | sed 's/.*signature: //' | sort -u | head -4 | tr '\n' ' ')" >> /verif/seeded/results.tsv
   echo "== $ID exit=$code  $(grep -c '^VIOLATION' $OUT/$ID.log) violation lines; signatures: $(grep 'signature:' $OUT/$ID.log | sort | uniq -c | head -5 | tr '\n' ';')"
